@@ -4,14 +4,33 @@ from fractions import Fraction as Fr
 import numpy as np
 from vf import core
 from vf.ref import defs, dims, names, uexpr
+from vf.gen import c05_history as hist
 from .common import all_names, chunks, udim
 
 RULE = ("laws as laws on real Unit objects: commutativity/inverse/identity/homomorphism exhaustively over ordered pairs of the 145 "
         "atomic symbols (+ prefixed and custom-registry units), associativity and power laws on random triples with exponents of "
         "denominator <= 12 given as int/Fraction/float/numpy scalar, equality semantics (equal iff scale, offset, dimension equal) "
         "over all same-dimension pairs, hash stability, simplify()/as_coeff_unit() denotation checked by re-evaluating the printed "
-        "expression with an independent evaluator. distinct = (law, operand names) tuples with non-dimensionless operands")
-ASSUMPTIONS = ("scale homomorphism is judged against products of the library's own atomic base values (read from Unit(sym).base_value)",)
+        "expression with an independent evaluator. History part: random custom-registry histories (units built by string / composition / "
+        "expression / explicit base_value / copy / deepcopy, interleaved with modify-float, modify-quantity, add, remove+re-add, "
+        "overwriting add, no-op modify, remove) keep every unit object alive; one evaluation is one law (power laws, inverse, identity, "
+        "commutativity, cancellation, associativity, power-of-product, equality, simplify/as_coeff_unit, hash of a rebuilt twin, and the "
+        "array unit rules multiply/divide/power/sqrt) on a tuple of live units, every side judged against the scale the operand "
+        "objects were built with (independent replay of the table), with the operands checked unchanged afterwards; orders of first "
+        "use: old-first, new-first, law-major (both directions), shuffled, a second shuffled pass, and optionally a use phase before "
+        "the edits. distinct = (law, operand names) tuples with non-dimensionless operands; history cells = (law, operand kinds "
+        "stale/fresh/explicit/copy/old-same-scale [+twin], order, warm|final)")
+ASSUMPTIONS = ("scale homomorphism is judged against products of the library's own atomic base values (read from Unit(sym).base_value)",
+               "a Unit object denotes the scale it carries: a unit built before registry.modify()/add()/remove() keeps the scale it was built with, and the laws "
+               "are judged on that scale, not on what its expression would mean in the current registry state (so for such units simplify()/as_coeff_unit() are "
+               "judged on scale, offset and dimension only; the printed form is re-evaluated only for units built in the current state)",
+               "two live units with the same expression and different scales must compare unequal (equality is decided by scale, offset, dimension); their hashes "
+               "are not judged against each other (the property speaks of the same registry state); hash equality is judged between a unit built in the current "
+               "state and twins rebuilt from its string and from its expression",
+               "a unit mentioning a symbol that has since been removed from the registry: Unit-level laws are judged as for any other unit; simplify() and the array "
+               "multiply/divide rules (which simplify, i.e. must look every symbol up) may refuse with SymbolNotFoundError - noted, not judged",
+               "array unit rules (memoised on Unit hash/equality, an anchor of the property) are judged by value * unit scale and dimension of the result only",
+               "a refusal (exception) of a Unit-level law on ordinary multiplicative custom-registry units is a violation in the history part, even if both sides refuse")
 MIN_EVALS = 5000
 TIMEOUT = 900
 OFFSET = {"degC", "degF", "lat", "lon"}
@@ -26,6 +45,8 @@ def batches(tier, seed):
     per = 700 if tier == "quick" else 5000
     b += [("triples/%d" % i, ("triples", (seed, i, per))) for i in range(n)]
     b += [("refusal", ("refusal", None)), ("hash", ("hash", seed))]
+    nh, perh = (8, 6) if tier == "quick" else (32, 24)
+    b += [("history/%d" % i, ("history", (seed, i, perh, tier))) for i in range(nh)]
     return b
 
 
@@ -85,6 +106,445 @@ def law(rec, name, lhs, rhs, ops, require_eq=True):
         return None
     rec.ok((name,) + tuple(ops))
     return a
+
+
+HIST_UNARY = ("pow-hom", "square", "inverse", "self-division", "sqrt-of-square", "pow0", "pow1", "identity", "power-of-power",
+              "simplify", "hash-rebuilt", "array-power", "array-sqrt")
+HIST_BINARY = ("commutative", "mul-div-cancel", "div-as-inverse", "power-of-product", "equality", "array-multiply", "array-divide")
+HIST_TERNARY = ("associative-mul", "associative-div")
+HIST_KINDS = ("stale", "fresh", "explicit", "copy", "default-registry", "default-registry-explicit")
+
+
+def history_worker(rec, unyt, res, payload):
+    """Unit objects that outlive registry edits: every law on stale / fresh / explicit-base-value / copied units of ONE registry
+    object, in both orders of first use.  The reference scale of a unit is fixed when it is built (independent table model
+    replayed alongside the edits); the operands themselves must come out of every evaluation unchanged."""
+    import copy as _copy
+    import functools
+    import operator
+    import sympy
+    from unyt import Unit, dimensions as ud
+    seed, bi, n, tier = payload
+    r = core.rng(seed, "history", bi)
+    sbase = (ud.mass, ud.length, ud.time, ud.temperature, ud.angle, ud.current_mks, ud.luminous_intensity, ud.logarithmic)
+
+    def sdim(dv):
+        e = sympy.S.One
+        for b, x in zip(sbase, dv):
+            if x:
+                e = e * b ** sympy.Rational(x.numerator, x.denominator)
+        return e
+
+    def builtin(tok):
+        return res(tok)
+
+    def form(p, arrays=False):
+        k = r.randrange(5)
+        if p.denominator == 1 and k < 2:
+            return int(p)
+        if k == 2 or (arrays and p.denominator != 1):
+            return float(p)
+        if k == 3:
+            return np.float64(float(p))
+        if k == 4 and p.denominator == 1 and not arrays:
+            return np.int64(int(p))
+        return float(p) if arrays else p
+
+    def relclose(a, b, rel=1e-12):
+        return abs(a - b) <= rel * max(abs(a), abs(b))
+
+    def P(s, p):
+        try:
+            return s ** float(p)
+        except OverflowError:
+            return math.inf
+
+    def in_range(*xs):
+        for x in xs:
+            if not (x > 0 and math.isfinite(x)) or abs(math.log10(x)) > 250:
+                return False
+        return True
+
+    for k in range(n):
+        gk = bi * n + k
+        pl = hist.plan(r, gk, tier)
+        exps = [Fr(x) for x in pl["exponents"]]
+        pq = [(exps[0], exps[2]), (exps[2], exps[3]), (exps[4], exps[1])]
+        reg = unyt.UnitRegistry()
+        model = hist.Model()
+        for sym, (spec, val, pf) in pl["symbols"].items():
+            reg.add(sym, val, sdim(dims.D(spec)), prefixable=pf)
+            model.add(sym, spec, val, pf)
+        U = {}
+        phase = 0
+        rec.count("history:scenarios")
+        if pl["warm"]:
+            rec.count("history:scenarios-used-before-edit")
+        if k < 1:
+            rec.sample({"history_plan": pl})
+
+        def kind(uid):
+            d = U[uid]
+            if d["route"] == "explicit-default" or (d["home"] == "default" and d["route"] in ("copy", "deepcopy")):
+                return "default-registry-explicit"
+            if d["route"] == "string-default":
+                return "default-registry"
+            if d["route"] == "explicit":
+                return "explicit"
+            if d["route"] in ("copy", "deepcopy"):
+                return "copy"
+            if d["gen"] == model.gen:
+                return "fresh"
+            cur = model.scale(d["factors"], builtin)
+            if cur is not None and relclose(cur[0], d["ref"][0]):
+                return "old-same-scale"
+            return "stale"
+
+        def orphan(uid):
+            return any(model.token(tok, builtin) is None for tok, _ in U[uid]["factors"])
+
+        def intact(uids, lawname):
+            for uid in uids:
+                d = U[uid]; u = d["u"]
+                now = (u.base_value, udim(u), str(u.expr), float(u.base_offset), id(u.registry))
+                if now != d["snap"]:
+                    rec.violation(f"C05:history:operand-changed:{lawname}:{kind(uid)}",
+                                  f"unit object {d['snap'][2]!r} built by route {d['route']} had (scale, dim, expr, offset, registry) {d['snap']} and after "
+                                  f"evaluating law {lawname} it has {now}", {"plan": pl, "uid": uid})
+                    d["snap"] = now
+
+        def judge(lawname, uids, thunks, expected, require_eq=True, extra_tag=""):
+            """thunks: callables giving Unit results that must all denote `expected` = (scale, dimvec) and compare equal"""
+            kinds = "-".join(kind(x) for x in uids)
+            if len(uids) > 1 and U[uids[0]]["factors"] == U[uids[1]]["factors"]:
+                kinds += "+twin"
+            ops = tuple(f"{U[x]['snap'][2]}@{U[x]['ref'][0]!r}" for x in uids)
+            rec.count("history:laws")
+            for x in uids:
+                kk = kind(x)
+                rec.count("history:evals-on-" + kk)
+            if any(U[x]["has_twin"] for x in uids):
+                rec.count("history:evals-on-unit-with-other-scale-twin")
+            out = []
+            raised = []
+            for t in thunks:
+                try:
+                    out.append(t()); raised.append(None)
+                except Exception as e:
+                    out.append(None); raised.append(f"{type(e).__name__}: {e}")
+            case = {"law": lawname, "operands": ops, "kinds": kinds, "order": cur_order, "phase": phase, "extra": extra_tag, "plan": pl}
+            if any(raised):
+                fk = "raises" if all(raised) else "one-side-refuses"
+                rec.violation(f"C05:history:{lawname}:{fk}:{kinds}", f"{lawname} on {ops} ({kinds}) {extra_tag}: sides gave {[x or 'returned' for x in raised]} on ordinary multiplicative units", case)
+                intact(uids, lawname)
+                return None
+            es, ed = expected
+            for j, a in enumerate(out):
+                sc = float(a.base_value)
+                if udim(a) != ed:
+                    rec.violation(f"C05:history:{lawname}:dimension:{kinds}", f"{lawname} on {ops} ({kinds}) {extra_tag}: side {j} is {a!r} with dimension {dims.show(udim(a))}, expected {dims.show(ed)}", case)
+                    intact(uids, lawname)
+                    return None
+                if not relclose(sc, es) or float(a.base_offset) != 0.0:
+                    rec.violation(f"C05:history:{lawname}:scale:{kinds}", f"{lawname} on {ops} ({kinds}) {extra_tag}: side {j} is {a!r} with scale {sc!r} offset {a.base_offset!r}; the operands' own scales give {es!r}", case)
+                    intact(uids, lawname)
+                    return None
+            if require_eq:
+                for a in out[1:]:
+                    if not (out[0] == a) or (out[0] != a):
+                        rec.violation(f"C05:history:{lawname}:not-equal:{kinds}", f"{lawname} on {ops} ({kinds}) {extra_tag}: {out[0]!r} == {a!r} is False although scale and dimension agree", case)
+                        intact(uids, lawname)
+                        return None
+            intact(uids, lawname)
+            rec.ok(("hist", lawname, kinds, cur_order, "warm" if phase_is_warm else "final"))
+            return out[0]
+
+        def judge_q(lawname, uids, thunk, expected, extra_tag=""):
+            """a quantity result: value * unit scale and dimension (the array unit rules are memoised on Unit hash/equality)"""
+            kinds = "-".join(kind(x) for x in uids)
+            if len(uids) > 1 and U[uids[0]]["factors"] == U[uids[1]]["factors"]:
+                kinds += "+twin"
+            ops = tuple(f"{U[x]['snap'][2]}@{U[x]['ref'][0]!r}" for x in uids)
+            rec.count("history:array-rule-evals")
+            case = {"law": lawname, "operands": ops, "kinds": kinds, "order": cur_order, "phase": phase, "extra": extra_tag, "plan": pl}
+            try:
+                q = thunk()
+            except Exception as e:
+                if type(e).__name__ == "SymbolNotFoundError" and any(orphan(x) for x in uids):
+                    # the array rule simplifies the product, which has to look every symbol up; the registry no longer knows one
+                    rec.note("history:array-rule-on-unit-with-removed-symbol-refused-not-judged")
+                else:
+                    rec.violation(f"C05:history:{lawname}:raises:{kinds}", f"{lawname} on {ops} ({kinds}) {extra_tag} raised {type(e).__name__}: {e}", case)
+                intact(uids, lawname)
+                return
+            un = getattr(q, "units", None)
+            val = float(np.asarray(q).ravel()[0])
+            sc = val * (float(un.base_value) if un is not None else 1.0)
+            dv = udim(un) if un is not None else dims.ZERO
+            es, ed = expected
+            if dv != ed:
+                rec.violation(f"C05:history:{lawname}:dimension:{kinds}", f"{lawname} on {ops} ({kinds}) {extra_tag}: result {q!r} has dimension {dims.show(dv)}, expected {dims.show(ed)}", case)
+            elif not relclose(sc, es, 1e-11):
+                rec.violation(f"C05:history:{lawname}:scale:{kinds}", f"{lawname} on {ops} ({kinds}) {extra_tag}: result {q!r} (unit scale {un.base_value if un is not None else None!r}) is {sc!r} in base units; the operands' own scales give {es!r}", case)
+            else:
+                rec.ok(("hist", lawname, kinds, cur_order, "warm" if phase_is_warm else "final"))
+            intact(uids, lawname)
+
+        def run_entry(e):
+            lawname, uids, par = e
+            u = U[uids[0]]["u"]; su, du = U[uids[0]]["ref"]
+            NULL = Unit(registry=u.registry)
+            if len(uids) > 1:
+                v = U[uids[1]]["u"]; sv, dv = U[uids[1]]["ref"]
+            if len(uids) > 2:
+                w = U[uids[2]]["u"]; sw, dw = U[uids[2]]["ref"]
+            if lawname == "pow-hom":
+                p = par
+                if not in_range(P(su, p)):
+                    rec.count("discarded:scale-outside-float-range"); return
+                fp = form(p)
+                judge(lawname, uids, [lambda: u ** fp], (P(su, p), dims.power(du, p)), extra_tag=f"p={fp!r}")
+            elif lawname == "square":
+                if not in_range(su * su):
+                    rec.count("discarded:scale-outside-float-range"); return
+                f2 = form(Fr(2))
+                judge(lawname, uids, [lambda: u ** f2, lambda: u * u], (su * su, dims.power(du, 2)))
+            elif lawname == "inverse":
+                fm = form(Fr(-1))
+                judge(lawname, uids, [lambda: u * u ** fm, lambda: NULL], (1.0, dims.ZERO))
+            elif lawname == "self-division":
+                judge(lawname, uids, [lambda: u / u, lambda: NULL], (1.0, dims.ZERO))
+            elif lawname == "sqrt-of-square":
+                if not in_range(su * su):
+                    rec.count("discarded:scale-outside-float-range"); return
+                fh = r.choice([0.5, Fr(1, 2), np.float64(0.5)])
+                judge(lawname, uids, [lambda: (u * u) ** fh, lambda: u], (su, du))
+            elif lawname == "pow0":
+                f0 = r.choice([0, 0.0, Fr(0)])
+                judge(lawname, uids, [lambda: u ** f0, lambda: NULL], (1.0, dims.ZERO))
+            elif lawname == "pow1":
+                f1 = form(Fr(1))
+                judge(lawname, uids, [lambda: u ** f1, lambda: u], (su, du))
+            elif lawname == "identity":
+                judge(lawname, uids, [lambda: u * NULL, lambda: NULL * u, lambda: u / NULL, lambda: u], (su, du))
+            elif lawname == "power-of-power":
+                p, q = par
+                if not in_range(P(su, p), P(su, p * q)):
+                    rec.count("discarded:scale-outside-float-range"); return
+                fp, fq, fpq = form(p), form(q), form(p * q)
+                judge(lawname, uids, [lambda: (u ** fp) ** fq, lambda: u ** fpq], (P(su, p * q), dims.power(du, p * q)), extra_tag=f"p={fp!r} q={fq!r}")
+            elif lawname == "simplify":
+                d = U[uids[0]]
+                if orphan(uids[0]):
+                    rec.note("history:simplify-of-unit-with-removed-symbol-not-judged"); return
+                kd = kind(uids[0])
+
+                def coeff_unit(t):
+                    c, cu = t.as_coeff_unit()
+                    return Unit(cu.expr, base_value=c * cu.base_value, dimensions=cu.dimensions, registry=cu.registry)
+                t = Unit(u.expr, base_value=u.base_value, dimensions=u.dimensions, registry=u.registry)
+                got = judge(lawname, uids, [lambda: coeff_unit(t), lambda: t.simplify(), lambda: coeff_unit(t), lambda: t], (su, du), require_eq=False)
+                if got is not None and kd == "fresh":
+                    # built in the current registry state: the printed form has to denote the same unit under the current table
+                    try:
+                        esc, edim = uexpr.evaluate(str(t.expr), lambda tok: model.token(tok, builtin))
+                        if edim != du or not relclose(esc, su, 1e-9):
+                            rec.violation(f"C05:history:simplify:expression-denotes-other-unit:{kd}", f"simplify() of {u!r} (scale {su!r}) prints {t.expr} which evaluates to {esc!r} {dims.show(edim)} in the current registry state", {"plan": pl, "uid": uids[0]})
+                        else:
+                            rec.ok(("hist", "simplify-expression", kd)); rec.count("history:simplify-expression-checked")
+                    except uexpr.ParseError:
+                        rec.note("simplify-printed-form-not-evaluable-by-reference")
+            elif lawname == "hash-rebuilt":
+                d = U[uids[0]]
+                if d["gen"] != model.gen or d["route"] not in ("string", "compose", "expr") or d["home"] != "custom":
+                    return
+                rec.count("history:hash-evals")
+                try:
+                    h = (hash(u), hash(Unit(hist.spell(d["factors"]), registry=reg)), hash(Unit(u.expr, registry=reg)), hash(u))
+                except Exception as e:
+                    rec.violation(f"C05:history:hash-rebuilt:raises:{d['route']}", f"hash of {u!r} / a rebuilt twin raised {type(e).__name__}: {e}", {"plan": pl}); return
+                if len(set(h)) != 1:
+                    rec.violation(f"C05:history:hash-rebuilt:differs:{d['route']}", f"{u!r} built by {d['route']} in the current registry state: hashes of it / of Unit(string) / of Unit(expr) / of it again: {h}", {"plan": pl, "uid": uids[0]})
+                else:
+                    rec.ok(("hist", "hash-rebuilt", d["route"]))
+                intact(uids, lawname)
+            elif lawname == "array-power":
+                p = par
+                if not in_range(P(su, p)):
+                    rec.count("discarded:scale-outside-float-range"); return
+                fp = form(p, arrays=True)
+                judge_q(lawname, uids, lambda: unyt.unyt_quantity(2.0, u) ** fp, (P(2.0 * su, p), dims.power(du, p)), extra_tag=f"p={fp!r}")
+            elif lawname == "array-sqrt":
+                if not in_range(su ** 0.5):
+                    rec.count("discarded:scale-outside-float-range"); return
+                judge_q(lawname, uids, lambda: np.sqrt(unyt.unyt_array([4.0, 9.0], u)), (2.0 * su ** 0.5, dims.power(du, Fr(1, 2))))
+            elif lawname == "commutative":
+                if not in_range(su * sv):
+                    rec.count("discarded:scale-outside-float-range"); return
+                judge(lawname, uids, [lambda: u * v, lambda: v * u], (su * sv, dims.mul(du, dv)))
+            elif lawname == "mul-div-cancel":
+                if not in_range(su * sv):
+                    rec.count("discarded:scale-outside-float-range"); return
+                judge(lawname, uids, [lambda: (u * v) / v, lambda: u], (su, du))
+            elif lawname == "div-as-inverse":
+                if not in_range(su / sv):
+                    rec.count("discarded:scale-outside-float-range"); return
+                fm = form(Fr(-1))
+                judge(lawname, uids, [lambda: u / v, lambda: u * v ** fm], (su / sv, dims.div(du, dv)))
+            elif lawname == "power-of-product":
+                p = par
+                if not in_range(su * sv, P(su, p), P(sv, p), P(su * sv, p)):
+                    rec.count("discarded:scale-outside-float-range"); return
+                fp = form(p)
+                judge(lawname, uids, [lambda: (u * v) ** fp, lambda: u ** fp * v ** fp], (P(su * sv, p), dims.power(dims.mul(du, dv), p)), extra_tag=f"p={fp!r}")
+            elif lawname == "equality":
+                kinds = kind(uids[0]) + "-" + kind(uids[1]) + ("+twin" if U[uids[0]]["factors"] == U[uids[1]]["factors"] else "")
+                rec.count("history:equality-evals")
+                eq, ne, self_eq = (u == v), (u != v), (u == u and not (u != u))
+                rel = abs(su - sv) / max(su, sv)
+                case = {"operands": (str(u), su, str(v), sv), "kinds": kinds, "plan": pl}
+                if eq == ne or not self_eq:
+                    rec.violation(f"C05:history:equality:eq-ne-inconsistent:{kinds}", f"{u!r}@{su!r} vs {v!r}@{sv!r}: == {eq}, != {ne}, self-equal {self_eq}", case)
+                elif du == dv and rel <= 1e-12:
+                    if not eq:
+                        rec.violation(f"C05:history:equality:same-unit-unequal:{kinds}", f"{u!r} == {v!r} is False although both have scale {su!r} and the same dimension", case)
+                    else:
+                        rec.ok(("hist", "equality-equal", kinds))
+                elif du != dv or rel >= 1e-6:
+                    if eq:
+                        rec.violation(f"C05:history:equality:different-unit-equal:{kinds}", f"{u!r} (scale {su!r}, {dims.show(du)}) == {v!r} (scale {sv!r}, {dims.show(dv)}) is True", case)
+                    else:
+                        rec.ok(("hist", "equality-unequal", kinds))
+                else:
+                    rec.note("equality-near-boundary-not-judged")
+                intact(uids, lawname)
+            elif lawname == "array-multiply":
+                if not in_range(su * sv):
+                    rec.count("discarded:scale-outside-float-range"); return
+                judge_q(lawname, uids, lambda: unyt.unyt_quantity(2.0, u) * unyt.unyt_quantity(3.0, v), (6.0 * su * sv, dims.mul(du, dv)))
+                judge_q(lawname, uids, lambda: unyt.unyt_array([3.0, 1.0], v) * unyt.unyt_array([2.0, 5.0], u), (6.0 * su * sv, dims.mul(du, dv)), extra_tag="reversed")
+            elif lawname == "array-divide":
+                if not in_range(su / sv):
+                    rec.count("discarded:scale-outside-float-range"); return
+                judge_q(lawname, uids, lambda: unyt.unyt_quantity(3.0, u) / unyt.unyt_quantity(2.0, v), (1.5 * su / sv, dims.div(du, dv)))
+            elif lawname == "associative-mul":
+                if not in_range(su * sv, sv * sw, su * sv * sw):
+                    rec.count("discarded:scale-outside-float-range"); return
+                judge(lawname, uids, [lambda: (u * v) * w, lambda: u * (v * w)], (su * sv * sw, dims.mul(dims.mul(du, dv), dw)))
+            elif lawname == "associative-div":
+                if not in_range(su / sv, sv * sw, su / sv / sw):
+                    rec.count("discarded:scale-outside-float-range"); return
+                judge(lawname, uids, [lambda: (u / v) / w, lambda: u / (v * w)], (su / sv / sw, dims.div(dims.div(du, dv), dw)))
+
+        cur_order = "-"
+        phase_is_warm = False
+        nsteps = len(pl["steps"])
+        for si, st in enumerate(pl["steps"]):
+            if st[0] == "build":
+                _, uid, factors, route, arg = st
+                factors = [tuple(f) for f in factors]
+                cur = model.scale(factors, builtin)
+                try:
+                    if route == "string":
+                        u = Unit(hist.spell(factors), registry=reg); ref = cur
+                    elif route == "compose":
+                        parts = []
+                        for tok, e in factors:
+                            e = Fr(e)
+                            a = Unit(tok, registry=reg)
+                            parts.append(a if e == 1 else a ** (int(e) if e.denominator == 1 else e))
+                        u = functools.reduce(operator.mul, parts); ref = cur
+                    elif route == "expr":
+                        u = Unit(U[arg]["u"].expr, registry=reg); ref = cur
+                    elif route == "explicit":
+                        ref = (cur[0] * arg, cur[1])
+                        u = Unit(hist.spell(factors), base_value=ref[0], dimensions=sdim(ref[1]), registry=reg)
+                    elif route == "string-default":
+                        u = Unit(hist.spell(factors)); ref = cur
+                    elif route == "explicit-default":
+                        ref = (cur[0] * arg, cur[1])
+                        u = Unit(hist.spell(factors), base_value=ref[0], dimensions=sdim(ref[1]))
+                    elif route == "copy":
+                        u = U[arg]["u"].copy(); ref = U[arg]["ref"]
+                    else:
+                        u = _copy.deepcopy(U[arg]["u"]); ref = U[arg]["ref"]
+                except KeyError:
+                    continue                                  # source unit was not constructible
+                except Exception as e:
+                    rec.violation(f"C05:history:build:raises:{route}", f"building {hist.spell(factors)!r} by route {route} raised {type(e).__name__}: {e}", {"plan": pl, "uid": uid})
+                    continue
+                rec.count("history:built:" + route)
+                if ref is None or not in_range(ref[0]):
+                    rec.count("discarded:scale-outside-float-range"); continue
+                if udim(u) != ref[1] or not relclose(float(u.base_value), ref[0]) or float(u.base_offset) != 0.0:
+                    rec.violation(f"C05:history:build:{'scale' if udim(u) == ref[1] else 'dimension'}:{route}",
+                                  f"{hist.spell(factors)!r} built by route {route} after {model.gen} edits carries scale {u.base_value!r} dim {dims.show(udim(u))}; the table at that moment gives {ref[0]!r} {dims.show(ref[1])}", {"plan": pl, "uid": uid})
+                    ref = (float(u.base_value), udim(u))
+                else:
+                    rec.ok(("hist", "build", route))
+                home = "default" if route.endswith("-default") else (U[arg]["home"] if route in ("copy", "deepcopy") else "custom")
+                U[uid] = {"u": u, "ref": ref, "factors": factors, "route": route, "gen": model.gen, "has_twin": False, "home": home,
+                          "snap": (u.base_value, udim(u), str(u.expr), float(u.base_offset), id(u.registry))}
+                for o, d in U.items():
+                    if o != uid and d["home"] == home and d["factors"] == factors and not relclose(d["ref"][0], ref[0], 1e-6):
+                        d["has_twin"] = True; U[uid]["has_twin"] = True
+            elif st[0] == "edit":
+                _, op, sym, arg = st
+                rec.count("history:edit:" + op)
+                if op in ("modify-float",):
+                    reg.modify(sym, arg)
+                elif op == "modify-quantity":
+                    reg.modify(sym, unyt.unyt_quantity(arg[0], arg[1], registry=reg))
+                elif op == "modify-same":
+                    reg.modify(sym, model.t[sym][0])
+                elif op == "add":
+                    reg.add(sym, arg[1], sdim(dims.D(arg[0])), prefixable=arg[2])
+                elif op == "readd":
+                    reg.remove(sym); reg.add(sym, arg, sdim(model.t[sym][1]), prefixable=model.t[sym][2])
+                elif op == "overwrite":
+                    reg.add(sym, arg, sdim(model.t[sym][1]), prefixable=model.t[sym][2])
+                elif op == "remove":
+                    reg.remove(sym)
+                model.apply(op, sym, tuple(arg) if isinstance(arg, list) else arg, builtin)
+            else:
+                _, order, passes = st
+                phase += 1
+                phase_is_warm = si != nsteps - 1
+                uids = sorted(U)
+                if not uids:
+                    continue
+                entries = []
+                per_unit = {}
+                for uid in uids:
+                    E = [("pow-hom", (uid,), p) for p in exps]
+                    E += [(nm, (uid,), None) for nm in ("square", "inverse", "self-division", "sqrt-of-square", "pow0", "pow1", "identity", "simplify", "hash-rebuilt", "array-sqrt")]
+                    E += [("power-of-power", (uid,), x) for x in pq]
+                    E += [("array-power", (uid,), p) for p in exps[:3]]
+                    # partners share the registry family (custom registry and its copies / the default registry): laws across
+                    # registries are another property's subject
+                    mates = [o for o in uids if U[o]["home"] == U[uid]["home"]]
+                    twins = [o for o in mates if o != uid and U[o]["factors"] == U[uid]["factors"]]
+                    partners = r.sample(twins, min(2, len(twins))) + r.sample(mates, min(2, len(mates)))
+                    for o in partners:
+                        E += [(nm, (uid, o), None) for nm in ("commutative", "mul-div-cancel", "div-as-inverse", "equality", "array-multiply", "array-divide")]
+                        E.append(("power-of-product", (uid, o), r.choice(exps)))
+                    E.append((r.choice(HIST_TERNARY), (uid, r.choice(partners), r.choice(mates)), None))
+                    per_unit[uid] = E
+                for ps in range(passes):
+                    o = order if ps == 0 else "shuffled"
+                    cur_order = o if ps == 0 else "second-pass"
+                    rec.count("history:use-phase:" + o)
+                    if o in ("old-first", "new-first"):
+                        seq = [e for uid in (uids if o == "old-first" else uids[::-1]) for e in per_unit[uid]]
+                    elif o in ("law-major", "law-major-reversed"):
+                        allE = [e for uid in (uids if o == "law-major" else uids[::-1]) for e in per_unit[uid]]
+                        lawsq = HIST_UNARY + HIST_BINARY + HIST_TERNARY
+                        seq = sorted(allE, key=lambda e: lawsq.index(e[0]))         # stable: unit order kept inside one law
+                    else:
+                        seq = [e for uid in uids for e in per_unit[uid]]
+                        r.shuffle(seq)
+                    for e in seq:
+                        run_entry(e)
 
 
 def worker(batch, rec):
@@ -298,6 +758,8 @@ def worker(batch, rec):
                     check_simplify(cu_, ":coefficient-unit")
             if k < 2:
                 rec.sample({"u": str(u), "v": str(v), "w": str(w), "p": str(p), "q": str(q)})
+    elif kind == "history":
+        history_worker(rec, unyt, res, payload)
     elif kind == "refusal":
         others = ["m", "s", "kg", "K", "rad", "degree", "J", "km", "delta_degC"]
         for o in ["degC", "degF", "mdegC", "kdegC", "lat", "lon"]:
@@ -335,3 +797,24 @@ def worker(batch, rec):
                 rec.violation("C05:hash:dict-lookup", f"dict lookup with an identical-expression twin of {u1!r} misses", (a, b)); continue
             rec.ok(("hash", a, b))
         rec.sample({"hash_cases": 1500})
+
+
+HIST_EDITS = ("modify-float", "modify-quantity", "add", "readd", "overwrite", "modify-same", "remove")
+
+
+def extra(tier, seed, results):
+    c = {}
+    for _, r in results:
+        for k, v in r.get("counters", {}).items():
+            c[k] = c.get(k, 0) + v
+    deciding = ["history:scenarios", "history:scenarios-used-before-edit", "history:laws", "history:array-rule-evals", "history:equality-evals",
+                "history:hash-evals", "history:simplify-expression-checked", "history:evals-on-unit-with-other-scale-twin",
+                "history:use-phase:shuffled"]
+    deciding += ["history:evals-on-" + k for k in HIST_KINDS]
+    deciding += ["history:use-phase:" + o for o in hist.ORDERS]
+    deciding += ["history:built:" + x for x in ("string", "compose", "expr", "explicit", "copy", "deepcopy", "string-default", "explicit-default")]
+    deciding += ["history:edit:" + e for e in HIST_EDITS if tier != "quick" or e != "remove"]
+    zero = [k for k in deciding if not c.get(k)]
+    if zero:
+        raise core.Inconclusive("sub-monitors-saw-nothing:" + ",".join(zero))
+    return {"sub_monitor_counters": {k: c[k] for k in sorted(c)}}
